@@ -117,7 +117,7 @@ theorem C08_analyzeTOAST_stats (relid : Nat) (lay : Spec.Toast.Layout) (h : lay.
       ∃ ids : List Nat, ids.Pairwise (· ≠ ·) ∧ (∀ k, k ∈ ids ↔ ∃ r ∈ lay.liveRows, r.id = k) ∧
         (toastTally relid chunks).uniqueValues = ids.length := by
   obtain ⟨i, hi, hs⟩ := (Props.C08.C08_stats relid lay h).2 hne
-  unfold getTOASTVerboseInfo at hi
+  unfold getTOASTVerboseInfo getTOASTVerboseInfoWith at hi
   cases hc : readTOASTTable (Spec.Toast.encToastRel lay) with
   | error e => rw [hc] at hi; cases hi
   | ok chunks =>
@@ -128,6 +128,7 @@ theorem C08_analyzeTOAST_stats (relid : Nat) (lay : Spec.Toast.Layout) (h : lay.
     · rw [if_neg hl] at hi
       injection hi with hi; injection hi with hi
       have ht := toastTally_eq_buildInfo relid chunks
+      unfold buildInfo at ht
       rw [hi] at ht
       refine ⟨chunks, rfl, ?_, ?_, i.values.map (·.chunkID), hs.valuesDistinct, ?_, ?_⟩
       · rw [ht.2.1]; exact hs.totalChunks
